@@ -504,7 +504,7 @@ Theorem update_ok_refines kd kt excl cond walk partial tmp atmp target fs afs b 
   bfile fs target = Some b -> Update.file afs target = Some (Update.mkF a true) -> L b = Ok a ->
   wf_archive b = true -> read_archive b = Ok es -> input_ok E D decompress verify pw rb srb pwb es ->
   Update.update_cmd kd kt excl cond a walk = Ok a' ->
-  let targets := filter (Update.wanted kd) walk in
+  let targets := Update.update_targets kd walk in
   let p := Update.update_pass excl cond a targets [] in
   map abs new = map (Update.fresh kt) (snd (fst p) ++ snd p) ->
   Forall2 carries jobs new -> Forall (wf_job E compress verify pw) jobs -> Forall (fun e => e_kind e <= 3) new ->
